@@ -25,10 +25,10 @@
    name") are kept as [*_old] definitions for the refutation witnesses.
 
    etcd is modelled as key-string-indexed maps, one per key family (next offsets,
-   topic configs, partition states, consumer groups, consumer offsets). That the
-   families never collide is a modelling assumption (their last path element is
-   "next_offset", "config", "metadata" or a decimal number under different parents);
-   the correspondence check would show a collision as a mismatch.
+   topic configs, partition states, consumer groups, consumer offsets). That this is a
+   faithful view of the single flat etcd key space is proved in proofs/MetaStoreFlat.v (for
+   '/'-free names the families' keys never coincide; every Put / Get / prefix Delete on the
+   flat map is the same operation on the key's own family map).
    Maps are association lists with replace-in-place put, so listing order is
    first-insertion order in both store models (the Go orders are map order / etcd key
    order; the correspondence check compares listings as multisets).
